@@ -869,4 +869,34 @@ theorem buildTiled_eq_src (codec : Option Codec) (R C tr tc : Nat) (hR : 1 ≤ R
         simp only
         cases encodePixelData codec tr tc bits (frames.map (·.px)) <;> rfl
 
+/-- a tiled object can only be built from a matrix the pixel checks accept -/
+theorem castMask_of_buildTiled (codec : Option Codec) (R C tr tc : Nat) (hR : 1 ≤ R) (hC : 1 ≤ C) (htr : 1 ≤ tr) (htc : 1 ≤ tc)
+    (t : SegType) (segs : List Nat) (mfv : Nat) (omt : Bool) (m : Mask) (o : SegObj)
+    (hb : buildTiled codec R C tr tc t segs mfv omt m = .ok o) : ∃ arr ov, castMask segs t m = .ok (arr, ov) := by
+  rw [buildTiled_eq_src codec R C tr tc hR hC htr htc] at hb
+  unfold buildTiledSrc at hb
+  split at hb
+  · cases hb
+  split at hb
+  · cases hb
+  split at hb
+  · cases hb
+  split at hb
+  · cases hb
+  rename_i r hcm
+  exact ⟨r.1, r.2, hcm⟩
+
+/-- (10d) without a separate hypothesis on the matrix -/
+theorem tiled_roundtrip' (codec : Option Codec) (hcodec : ∀ c, codec = some c → ∀ x, c.dec (c.enc x) = x)
+    (R C tr tc : Nat) (hR : 1 ≤ R) (hC : 1 ≤ C) (htr : 1 ≤ tr) (htc : 1 ≤ tc) (t : SegType) (segs : List Nat) (mfv : Nat)
+    (omt : Bool) (m : Mask) (o : SegObj) (hb : buildTiled codec R C tr tc t segs mfv omt m = .ok o) :
+    ∃ mpl out, m.plane? 0 = some mpl ∧
+      readBySource codec o (List.range (tilesAlong R tr * tilesAlong C tc)) .assertEmpty = .ok out ∧
+      ∀ j (hj : j < segs.length), ∃ e, expectedPlane t mfv j segs[j] mpl = some e ∧
+        ∀ r c, r < R → c < C →
+          ((out[(r / tr) * tilesAlong C tc + c / tc]?.bind (·[j]?)).bind (·[(r % tr) * tc + c % tc]?))
+            = some (e.getD (r * C + c) 0) := by
+  obtain ⟨arr, ov, hcm⟩ := castMask_of_buildTiled codec R C tr tc hR hC htr htc t segs mfv omt m o hb
+  exact tiled_roundtrip codec hcodec R C tr tc htr htc t segs mfv omt m arr ov hcm o hb
+
 end HdVerif.SegEncodeLemmas
